@@ -475,6 +475,52 @@ func TestVerif_C29_Payset(t *testing.T) {
 			vk.Label("mut:" + what)
 		}
 		// an unknown protocol cannot be checked, so it cannot match
+		// entry encoding: the commitment covers the ENCODED entries, so an entry must have exactly one accepted encoding.
+		// DecodeSignedTxn documents the non-canonical forms as errors; whatever it accepts must re-encode to itself.
+		if len(b.Payset) > 0 {
+			i := rapid.IntRange(0, len(b.Payset)-1).Draw(t, "encEntry")
+			orig := b.Payset[i]
+			if st, ad, err := b.DecodeSignedTxn(orig); err != nil {
+				t.Fatalf("DecodeSignedTxn refused an entry made by EncodeSignedTxn: %v", err)
+			} else if back, err := b.EncodeSignedTxn(st, ad); err != nil || string(protocol.Encode(&back)) != string(protocol.Encode(&orig)) {
+				t.Fatalf("EncodeSignedTxn(DecodeSignedTxn(e)) != e (err %v)", err)
+			}
+			knobs := []struct {
+				name      string
+				mustError bool
+				f         func(e *transactions.SignedTxnInBlock)
+			}{
+				{"HasGenesisHash under RequireGenesisHash", true, func(e *transactions.SignedTxnInBlock) { e.HasGenesisHash = true }},
+				{"explicit GenesisHash in the body", true, func(e *transactions.SignedTxnInBlock) { e.SignedTxn.Txn.GenesisHash = b.BlockHeader.GenesisHash }},
+				{"explicit GenesisID in the body", true, func(e *transactions.SignedTxnInBlock) { e.SignedTxn.Txn.GenesisID = b.BlockHeader.GenesisID }},
+				{"explicit GenesisID in the body + flag", true, func(e *transactions.SignedTxnInBlock) {
+					e.SignedTxn.Txn.GenesisID = b.BlockHeader.GenesisID
+					e.HasGenesisID = true
+				}},
+				{"HasGenesisID flipped", false, func(e *transactions.SignedTxnInBlock) { e.HasGenesisID = !e.HasGenesisID }},
+			}
+			for _, k := range knobs {
+				e := orig
+				k.f(&e)
+				st, ad, err := b.DecodeSignedTxn(e)
+				vk.Label("enc:" + k.name)
+				if k.mustError && err == nil {
+					t.Fatalf("DecodeSignedTxn accepted a non-canonical entry (%s) under %s", k.name, b.CurrentProtocol)
+				}
+				if err == nil {
+					back, err2 := b.EncodeSignedTxn(st, ad)
+					if err2 != nil || string(protocol.Encode(&back)) != string(protocol.Encode(&e)) {
+						t.Fatalf("entry with %s decodes but does not re-encode to itself (err %v): two encodings of one transaction are accepted", k.name, err2)
+					}
+				}
+				m := b
+				m.Payset = append(transactions.Payset(nil), b.Payset...)
+				m.Payset[i] = e
+				if m.ContentsMatchHeader() {
+					t.Fatalf("ContentsMatchHeader true although entry %d was re-encoded (%s)", i, k.name)
+				}
+			}
+		}
 		if rapid.IntRange(0, 19).Draw(t, "probeUnknown") == 0 {
 			u := b
 			u.CurrentProtocol = "c29-unknown-protocol"
